@@ -254,6 +254,11 @@ def run(ctx):
         r = craft_response(pairs, b'body', count)
         crafted.append(craft_b2([(b'https://example.com/', r)]))
         crafted.append(craft_b2([(b'https://example.com/0', craft_response([ST], b'ok')), (b'https://example.com/1', r)], primary=b'https://example.com/0'))
+    # index keys (b2) that are not plain absolute URLs: with a fragment, with credentials, relative, empty, not UTF-8-clean, with spaces
+    for ku in (b'https://example.com/page#top', b'https://example.com/page?x=1#top', b'https://example.com/#', b'https://user:pw@example.com/', b'/relative', b'', b'https://example.com/a b',
+               b'HTTPS://EXAMPLE.com/', b'https://example.com', b'//example.com/x', b'https://example.com/%zz', b'https://[::1]/', b'urn:x:y'):
+        crafted.append(craft_b2([(ku, craft_response([ST], b'k'))]))
+        crafted.append(craft_b2([(b'https://example.com/0', craft_response([ST], b'ok')), (ku, craft_response([ST], b'k'))], primary=b'https://example.com/0'))
     muts += crafted
     # header magic of one version with the version string of the other, and other pairings of the two magic fields
     magic_mix = []
@@ -268,7 +273,8 @@ def run(ctx):
     okr = craft_response([ST], b'ok')
     def axes(n, k=2): return b', '.join(b'A%d;' % i + b';'.join(b'v%d' % j for j in range(k)) for i in range(n))
     b1c = []
-    for vv, nresp, nlocs in [(axes(1), 2, None), (axes(2), 4, None), (axes(2), 4, 3), (axes(2), 4, 0), (axes(1), 2, 0), (axes(13), 1, 1), (axes(14), 1, 1), (axes(14), 0, 0),
+    for vv, nresp, nlocs in [(b'accept-encoding, accept-language;en', 1, 1), (b'accept-language;en, accept-encoding', 1, 1), (b'accept-encoding', 1, 1), (b'a, b, c;x', 1, 1), (b'a;x, b, c;y;z', 2, 2),
+                             (b',', 1, 1), (b'a;x,', 1, 1), (b'a;;x', 1, 1), (b';', 1, 1), (b'a;x;x', 2, 2), (b'a;x, a;y', 1, 1), (axes(1), 2, None), (axes(2), 4, None), (axes(2), 4, 3), (axes(2), 4, 0), (axes(1), 2, 0), (axes(13), 1, 1), (axes(14), 1, 1), (axes(14), 0, 0),
                              (axes(62), 0, 0), (axes(63), 0, 0), (axes(64), 0, 0), (axes(65), 0, 0), (axes(70), 0, 0), (axes(63), 1, 1), (axes(64), 1, 1), (axes(32, 4), 0, 0), (axes(16, 16), 0, 0),
                              (axes(1, 10000), 0, 0), (axes(1, 10001), 0, 0), (axes(2, 100), 0, 0), (axes(2, 101), 0, 0), (b'', 1, None), (b'', 2, None), (b'', 1, 0)]:
         ents = [(b'https://example.com/huge', vv, [craft_response([ST], b'r%d' % i) for i in range(nresp)], nlocs), (b'https://example.com/ok', b'', [okr], None)]
